@@ -616,28 +616,41 @@ class LinkK(Kind):
 
 
 class Link2K(LinkK):
-    """core.EncodeLinkMessage read by the second parser, structures.ParseLinkMessage (Go-side round trip only:
-    that parser has no Coq model)"""
+    """core.EncodeLinkMessage read by the second parser, structures.ParseLinkMessage (Model/CodecLink2.v dec_link2;
+    the encoder model is the first parser's enc_link).  Big-endian superblocks included: the encoder copies the
+    LinkValue bytes verbatim, the parser reads a hard link's address in the superblock's byte order."""
     name = "link2"
-    no_model = True
+    imports = "Model.CodecMsg Model.CodecLink Model.CodecLink2"
 
     def gen(self, rng, i):
         x = LinkK.gen(self, rng, i + 1)
+        x["_sb"] = dict(x["_sb"], be=rng.random() < 0.4)
         if not x["name"]:
             x["name"] = "6c"
         if x["type"] == 1 and x["value"] == "0000":
             x["value"] = "01002f"
+        if x["type"] == 64 and rng.random() < 0.5:
+            # link types the first parser refuses and this one accepts: two readable value bytes are all it needs
+            x["type"] = rng.choice([2, 5, 63, 65, 128, 255])
+            if rng.random() < 0.5:
+                x["value"] = rbytes(rng, rng.choice([2, 3, 10])).hex()
         return x
     def invalid(self, rng):
         return []
+    def wf_expr(self, x):
+        return "wf_link2 %d %s %s" % (x["_sb"]["o"], "true" if x["_sb"]["be"] else "false", self.coq(x))
+    def dec_expr(self, hexs, sb):
+        return "oval val_link2 (dec_link2 %d %s %s)" % (sb["o"], "true" if sb["be"] else "false", cbytes(hexs))
     def proj(self, x):
         addr, path = 0, ""
         v = bytes.fromhex(x["value"])
         if x["type"] == 0:
-            addr = int.from_bytes(v, "little")
+            addr = int.from_bytes(v, "big" if x["_sb"]["be"] else "little")
         elif x["type"] == 1:
             path = v[2:].hex()
         return [1, x["flags"], x["type"], x["name"], x["corder"], 1 if x["flags"] & 4 else 0, x["charset"], addr, path]
+    def shape(self, x):
+        return "type=%d,flags=%02x,name=%d,os=%d%s" % (x["type"], x["flags"] & 0x1F, len(x["name"]) // 2, x["_sb"]["o"], "be" if x["_sb"]["be"] else "le")
 
 
 class LinkInfoK(Kind):
